@@ -27,6 +27,9 @@ LABEL_FAMILIES = {
     # iteration order is not ascending, strings of mixed length
     "big": lambda n: [1000, 300, 70000, 5000, 2 ** 40 + 1, 999, 800, 123456, 257, 4096][:n],
     "neg": lambda n: [-1, -2, 13, 8, -7, 21, 10, -30, 16, 9][:n],
+    # labels whose decimal / string concatenations collide: (1, 2) vs (12,), ("a", "bc") vs ("ab", "c")
+    "cat": lambda n: [1, 2, 12, 21, 11, 112, 121, 211, 22, 122][:n],
+    "scat": lambda n: ["a", "bc", "ab", "c", "abc", "b", "ca", "cab", "bca", "aa"][:n],
     "long": lambda n: ["node-b", "node-a", "nd-d", "n-c", "node-f", "ee", "g-g", "hh-8", "i", "node-j"][:n],
 }
 
